@@ -13,7 +13,12 @@ RESERVED = ["break", "case", "catch", "class", "continue", "default", "do", "els
             "volatile", "while"]
 PKGS = ["p", "q", "p.q", "com.x", "a.b.c", "other.pkg", "pkg"]
 NAMES = ["Foo", "Bar", "Baz", "XFoo", "FooX", "FooFoo", "Foo2", "Qux", "IFoo", "Listing", "int_", "inout2", "Maps", "_x"]
-MEMBERS = ["a", "b", "c", "get", "set", "value", "x1", "doIt", "in_", "outer", "String_", "f", "g"]
+MEMBERS = ["a", "b", "c", "get", "set", "value", "x1", "doIt", "in_", "outer", "String_", "f", "g", "type", "match", "mod", "ref", "self", "use", "impl", "fn", "def", "var", "final", "native", "abstract"]
+OTHER_LANG = ["type", "match", "mod", "ref", "self", "use", "where", "loop", "impl", "fn", "let", "move", "mut", "pub", "super",
+              "trait", "unsafe", "struct", "crate", "dyn", "extern", "async", "await", "as", "Self", "def", "lambda", "yield", "with",
+              "is", "not", "and", "or", "None", "var", "val", "fun", "object", "when", "typeof", "func", "go", "chan", "select",
+              "namespace", "using", "template", "typedef", "union", "virtual", "final", "native", "synchronized", "abstract",
+              "extends", "implements", "instanceof", "long_", "boolean_"]
 WS = [" ", "  ", "\t", "\n", "\r\n", "\n\n", " \n ", "\u0085", "\u00a0", "\u1680", "\u2000", "\u2003",
       "\u200a", "\u2028", "\u2029", "\u202f", "\u205f", "\u3000", "\x0b", "\x0c", "\r"]
 WORDS = ["alpha", "beta", "Größe", "naïve", "日本語", "문서", "😀", "x", "the", "value", "of", "🙂🙃", "é", "ß"]
@@ -152,6 +157,9 @@ def gen_doc_text(rng):
     style = rng.choice(["star", "plain", "oneline"])
     if style == "oneline" and len(paras) == 1 and len(paras[0]) == 1 and not tags:
         return " " + paras[0][0] + " ", paras[0][0]
+    if style == "oneline" and len(paras) == 1 and len(paras[0]) == 1:
+        # everything on one line: text, then the @tag clauses (each clause still starts a new line of the documentation)
+        return " " + paras[0][0] + " " + " ".join(tags) + " ", paras[0][0] + "".join("\n" + t for t in tags)
     dec = " * " if style == "star" else "   "
     blank = " *" if style == "star" else ""
     body = nl
